@@ -190,9 +190,11 @@ Proof.
 Qed.
 
 (* removing, in the order "index row first": whatever stage the removal reaches *)
-Lemma Q_remove s r st : Q s -> Q (remove_upto true s r st).
+Definition header_first (st : rm_stage) : bool := match st with RmZeroOnly _ => false | _ => true end.
+
+Lemma Q_remove s r st : header_first st = true -> Q s -> Q (remove_upto true s r st).
 Proof.
-  intros HQ. pose proof HQ as [Q1 Q2]. unfold remove_upto. destruct (ilook r (idx s)) as [p|] eqn:E; [|exact HQ].
+  intros Hst HQ. pose proof HQ as [Q1 Q2]. unfold remove_upto. destruct (ilook r (idx s)) as [p|] eqn:E; [|exact HQ].
   destruct (Q1 r p E) as (size & hdr & Ep). rewrite Ep.
   assert (Hdel : Q {| pack := pack s; idx := idel r (idx s) |}).
   { split; cbn [pack idx]; [|exact Q2]. intros r0 p0 H. rewrite ilook_idel in H. destruct (N.eqb r r0); [discriminate|]. apply Q1; exact H. }
@@ -203,30 +205,38 @@ Proof.
       rewrite Ep in E0. injection E0 as E0 _ _. congruence.
     - intros p0 r0 sz h z0 H Hz. rewrite nth_error_upd in H. destruct (Nat.eqb_spec p p0) as [<-|]; [|eapply Q2; eassumption].
       rewrite Ep in H. injection H as _ _ <- _. reflexivity. }
-  destruct st; [exact HQ|exact Hdel|apply Hmark..].
+  destruct st; try discriminate; [exact HQ|exact Hdel|apply Hmark..].
 Qed.
 
-Theorem Q_run : forall os s, Q s -> Q (druns true s os).
+Definition op_ok (o : dop) : bool := match o with DCrashRemove _ st => header_first st | _ => true end.
+Definition ops_ok (os : list dop) : bool := forallb op_ok os.
+
+Lemma Q_step s o : op_ok o = true -> Q s -> Q (dstep true s o).
 Proof.
-  induction os as [|o os IH]; intros s HQ; [exact HQ|]. unfold druns in *. cbn [fold_left]. apply IH.
-  destruct o as [r size|r|r size st|r st]; cbn [dstep].
+  intros Ho HQ. destruct o as [r size|r|r size st|r st]; cbn [dstep].
   - apply Q_receive; exact HQ.
-  - apply Q_remove; exact HQ.
+  - apply Q_remove; [reflexivity|exact HQ].
   - destruct (ilook r (idx s)) as [p|]; [destruct (extent_inside (pack s) p); [exact HQ|]|]; apply Q_append_upto; exact HQ.
-  - apply Q_remove; exact HQ.
+  - apply Q_remove; [exact Ho|exact HQ].
+Qed.
+
+Theorem Q_run : forall os s, ops_ok os = true -> Q s -> Q (druns true s os).
+Proof.
+  induction os as [|o os IH]; intros s Hok HQ; [exact HQ|]. unfold druns in *. cbn [fold_left]. cbn [ops_ok forallb] in Hok. apply andb_true_iff in Hok as [Ho Hos].
+  apply IH; [exact Hos|]. apply Q_step; assumption.
 Qed.
 
 (* no fetch ever presents wrong bytes, whatever crashes and restarts happened *)
-Theorem fetch_never_corrupt : forall os r, dfetch (druns true dp0 os) r <> FCorrupt.
+Theorem fetch_never_corrupt : forall os r, ops_ok os = true -> dfetch (druns true dp0 os) r <> FCorrupt.
 Proof.
-  intros os r. destruct (Q_run os dp0 Q0) as [Q1 _]. unfold dfetch. destruct (ilook r (idx _)) as [p|] eqn:E; [|discriminate].
+  intros os r Hok. destruct (Q_run os dp0 Hok Q0) as [Q1 _]. unfold dfetch. destruct (ilook r (idx _)) as [p|] eqn:E; [|discriminate].
   destruct (Q1 r p E) as (size & hdr & Ep). rewrite Ep, N.eqb_refl. cbn. discriminate.
 Qed.
 
 (* an acknowledged receive makes the blob fetchable, and it stays so until it is removed *)
-Theorem receive_then_intact : forall os r size, dfetch (receive (druns true dp0 os) r size) r = FIntact.
+Theorem receive_then_intact : forall os r size, ops_ok os = true -> dfetch (receive (druns true dp0 os) r size) r = FIntact.
 Proof.
-  intros os r size. pose proof (Q_receive _ r size (Q_run os dp0 Q0)) as [Q1 _]. set (s := druns true dp0 os) in *.
+  intros os r size Hok. pose proof (Q_receive _ r size (Q_run os dp0 Hok Q0)) as [Q1 _]. set (s := druns true dp0 os) in *.
   unfold dfetch. assert (H : exists p, ilook r (idx (receive s r size)) = Some p).
   { unfold receive. destruct (ilook r (idx s)) as [p|] eqn:E; [destruct (extent_inside (pack s) p); [exists p; exact E|]|];
       cbn [idx]; rewrite ilook_iset, N.eqb_refl; eexists; reflexivity. }
@@ -253,8 +263,8 @@ Proof.
     destruct (Q1 q pq Eq) as (sq & hq & Epq). rewrite Epq.
     assert (pq <> p) by (intros ->; rewrite Ep in Epq; injection Epq as X _ _; symmetry in X; contradiction).
     assert (Hidx : ilook r (idel q (idx s)) = Some p) by (rewrite ilook_idel; destruct (N.eqb_spec q r); [contradiction|exact E]).
-    assert (Hm : forall z, nth_error (mark (pack s) pq true z) p = Some (IRec r size hdr 0)).
-    { intros z. unfold mark. rewrite Epq, nth_error_upd. destruct (Nat.eqb_spec pq p); [contradiction|exact Ep]. }
+    assert (Hm : forall h z, nth_error (mark (pack s) pq h z) p = Some (IRec r size hdr 0)).
+    { intros h z. unfold mark. rewrite Epq, nth_error_upd. destruct (Nat.eqb_spec pq p); [contradiction|exact Ep]. }
     destruct st; unfold dfetch; cbn [pack idx]; rewrite ?Hidx, ?E, ?Hm, ?Ep, N.eqb_refl; reflexivity. }
   destruct o as [q sz|q|q sz st|q st]; cbn [dstep touches] in *.
   - unfold receive. destruct (N.eqb_spec q r) as [->|Hq].
@@ -269,9 +279,9 @@ Proof.
   - apply Hrm. apply N.eqb_neq. exact Ht.
 Qed.
 
-Lemma acked_stays_intact : (forall os r size, dfetch (receive (druns true dp0 os) r size) r = FIntact) /\
-  (forall os o r, touches o r = false -> dfetch (druns true dp0 os) r = FIntact -> dfetch (dstep true (druns true dp0 os) o) r = FIntact).
-Proof. split; [exact receive_then_intact|intros os o r; exact (intact_preserved (druns true dp0 os) o r (Q_run os dp0 Q0))]. Qed.
+Lemma acked_stays_intact : (forall os r size, ops_ok os = true -> dfetch (receive (druns true dp0 os) r size) r = FIntact) /\
+  (forall os o r, ops_ok os = true -> touches o r = false -> dfetch (druns true dp0 os) r = FIntact -> dfetch (dstep true (druns true dp0 os) o) r = FIntact).
+Proof. split; [exact receive_then_intact|intros os o r Hok; exact (intact_preserved (druns true dp0 os) o r (Q_run os dp0 Hok Q0))]. Qed.
 
 (* ---------- the pack walk ---------- *)
 (* with the end-of-file check, a pack whose only torn item is its last one is walked to the end, and the rebuilt index
@@ -309,11 +319,12 @@ Qed.
 (* Reindex after a crash that tore only the tail of the pack (no operation since): it succeeds, and nothing it indexes
    is torn or half removed *)
 Theorem reindex_after_tail_crash : forall os last s', let s := dstep true (druns true dp0 os) last in
+  ops_ok os = true -> op_ok last = true ->
   forallb (fun it => negb (torn it)) (pack (druns true dp0 os)) = true ->
   (exists s', reindex true s = Some s') /\ (reindex true s = Some s' -> forall r, dfetch s' r <> FCorrupt).
 Proof.
-  intros os last s' s Hclean.
-  assert (HQ : Q s) by (subst s; change (Q (druns true (druns true dp0 os) [last])); apply Q_run; apply Q_run; exact Q0).
+  intros os last s' s Hok Hlast Hclean.
+  assert (HQ : Q s) by (subst s; apply Q_step; [exact Hlast|apply Q_run; [exact Hok|exact Q0]]).
   assert (Hrl : forallb (fun it => negb (torn it)) (removelast (pack s)) = true).
   { subst s. set (s0 := druns true dp0 os) in *.
     assert (Hsame : forall pk, forallb (fun it => negb (torn it)) pk = true -> forallb (fun it => negb (torn it)) (removelast pk) = true).
@@ -356,6 +367,13 @@ Lemma no_eof_check_presents_torn_blob :
   match reindex false s with Some s' => dfetch s' 2 = FCorrupt | None => False end /\
   match reindex true s with Some s' => dfetch s' 2 = FAbsent /\ dfetch s' 1 = FIntact | None => False end.
 Proof. repeat split; reflexivity. Qed.
+
+(* the order inside the removal matters too: zeroing the body before the header is rewritten lets a crash leave a record
+   that a later Reindex presents as a blob of zeros *)
+Lemma body_before_header_presents_zeroed_blob :
+  let s := druns true dp0 [DReceive 1 10; DCrashRemove 1 (RmZeroOnly 10)] in
+  dfetch s 1 = FAbsent /\ match reindex true s with Some s' => dfetch s' 1 = FCorrupt | None => False end.
+Proof. split; reflexivity. Qed.
 
 (* D36 (repaired): destroying the data before deleting the index row lets a crash present a zeroed blob *)
 Lemma data_first_presents_zeroed_blob :
